@@ -25,7 +25,7 @@ func c16Round3(c *Ctx) {
 			}
 		}
 		// the decode-failure path: a non-nil error stored into the variable that the later classification reads
-		for _, b := range fn.Blocks {
+		for _, b := range blocksIP(fn) {
 			for _, in := range b.Instrs {
 				st, ok := in.(*ssa.Store)
 				if !ok || !isErrorType(st.Val.Type()) || isNilConst(st.Val) {
